@@ -411,6 +411,15 @@ pub fn generate(s: &mut Session, thorough: bool) -> bool {
             f[i].flags ^= 1;
             let o = orders(f.len(), full, 4, &mut rng);
             add_group(s, "fault-eom", &f, &o, Expect::Reject, &mut tag);
+            // the end-of-message flag MOVED: cleared on the last chunk and set on chunk i instead (exactly
+            // one flagged chunk, in the wrong place), and set on chunk i in addition to the last one
+            if i + 1 < n {
+                let mut f = base.clone();
+                f[n - 1].flags &= !1;
+                f[i].flags |= 1;
+                let o = orders(f.len(), full, 4, &mut rng);
+                add_group(s, "fault-eom-moved", &f, &o, Expect::Reject, &mut tag);
+            }
             // resize non-final i
             if i + 1 < n {
                 for grow in [false, true] {
